@@ -5,6 +5,7 @@ import (
 	"bytes"
 	"fmt"
 
+	"gitlab.com/gomidi/midi/v2"
 	cc "gitlab.com/gomidi/midi/v2/internal/verifh/conccases"
 	cp "gitlab.com/gomidi/midi/v2/internal/verifh/concpairs"
 	"gitlab.com/gomidi/midi/v2/internal/verifh/disturb"
@@ -90,6 +91,29 @@ func judge(v sysex.Manufacturer, corrupt bool) {
 		}
 		if !bytes.Equal(b2, b) {
 			report("build:depends-on-capacity:"+kind, v, b2, "the same value built from a payload slice with spare capacity gives other bytes")
+			return
+		}
+	}
+	// the inner bytes of the message wrapped once more by the generic sysex
+	// constructor (a caller that re-frames a dump): the constructor must not
+	// write into its argument or behind it - the argument here is a piece of b
+	// itself, with the closing F7 behind it - and gives the same message
+	if len(b) >= 2 {
+		before := append([]byte(nil), b...)
+		re := midi.SysEx(b[1 : len(b)-1])
+		if !bytes.Equal(b, before) {
+			report("build:generic-constructor-writes-into-argument:"+kind, v, before, "midi.SysEx(inner bytes of the built message) changed the built message to "+engine.Hex(b[:min(len(b), 24)]))
+			copy(b, before)
+			return
+		}
+		if !bytes.Equal(re, before) {
+			report("build:generic-constructor:"+kind, v, re, "midi.SysEx(inner bytes) does not give the message back")
+			return
+		}
+		arg, touched := engine.Spare(before[1:len(before)-1], 4)
+		_ = midi.SysEx(arg)
+		if t := touched(); t != "" {
+			report("build:generic-constructor-writes-into-argument:"+kind, v, before, "midi.SysEx on a slice with spare capacity: "+t)
 			return
 		}
 	}
